@@ -62,11 +62,20 @@ pub struct HistoryShape {
     /// Max number of attempts open at once in the linearisation.
     pub max_open_attempts: usize,
     pub max_open_features: usize,
+    #[serde(default)]
+    pub logs: usize,
 }
 
 /// Generates a history for `plan` (must be called with the simulator hooks installed so that
 /// `Event::new` stamps events with unique virtual times, in emission order).
 pub fn generate(plan: &Plan, core: &Rc<SimCore>, seed: u64) -> Result<(Vec<Item>, HistoryShape), String> {
+    generate_with_logs(plan, core, seed, false)
+}
+
+/// `logs`: (tracing build only) attempts also carry `Scenario::Log` events - mostly between a step's or
+/// hook's Started and its result, sometimes just before a Started (where the real pipeline puts the
+/// logs of an after hook) - with unique tokens, some of them multi-line.
+pub fn generate_with_logs(plan: &Plan, core: &Rc<SimCore>, seed: u64, logs: bool) -> Result<(Vec<Item>, HistoryShape), String> {
     let mut r = Rng::new(seed);
     let mut dag = Dag { nodes: Vec::new() };
     let mut shape = HistoryShape::default();
@@ -85,6 +94,10 @@ pub fn generate(plan: &Plan, core: &Rc<SimCore>, seed: u64) -> Result<(Vec<Item>
     let burst_pm = if sequential { 1000 } else { *r.pick(&[0u64, 300, 700, 950]) };
     let open_all_first = r.chance(1, 5);
 
+    #[cfg(feature = "tracing")]
+    let log_pm: u64 = if logs { *r.pick(&[0u64, 150, 500, 900]) } else { 0 };
+    #[cfg(not(feature = "tracing"))]
+    let _ = logs;
     let re = Regex::new("^x$").map_err(|e| e.to_string())?;
     let run_started = dag.add(Box::new(|| ev(Cucumber::Started)), &[]);
     let mut feature_finishes = Vec::new();
@@ -253,6 +266,34 @@ pub fn generate(plan: &Plan, core: &Rc<SimCore>, seed: u64) -> Result<(Vec<Item>
                     if skipped {
                         shape.skipped_attempts += 1;
                     }
+                    #[cfg(feature = "tracing")]
+                    let evs = if log_pm > 0 {
+                        let mut with_logs: Vec<Scenario<SimWorld>> = Vec::with_capacity(evs.len());
+                        let mut emit = |r: &mut Rng, out: &mut Vec<Scenario<SimWorld>>, shape: &mut HistoryShape| {
+                            for _ in 0..r.usize(1, 3) {
+                                let t = new_tok();
+                                let msg = if r.chance(1, 4) { format!("LOGLINE log{t}\n  second line of log{t}\n") } else { format!("LOGLINE log{t}\n") };
+                                shape.logs += 1;
+                                out.push(Scenario::Log(msg));
+                            }
+                        };
+                        for se in evs {
+                            let is_started = matches!(
+                                &se,
+                                Scenario::Hook(_, event::Hook::Started) | Scenario::Step(_, event::Step::Started) | Scenario::Background(_, event::Step::Started)
+                            );
+                            if is_started && r.chance(log_pm, 5000) {
+                                emit(&mut r, &mut with_logs, &mut shape);
+                            }
+                            with_logs.push(se);
+                            if is_started && r.chance(log_pm, 1000) {
+                                emit(&mut r, &mut with_logs, &mut shape);
+                            }
+                        }
+                        with_logs
+                    } else {
+                        evs
+                    };
                     // chain nodes
                     let mut prev: Option<usize> = None;
                     for (i, se) in evs.into_iter().enumerate() {
